@@ -7,6 +7,8 @@ func init() {
 }
 
 // model: a plain data map (possibly absent) plus a separate key-value store
+type vpSkip struct{}
+
 type vpRunnerModel struct {
 	this  map[string]interface{}
 	has   bool
@@ -15,7 +17,7 @@ type vpRunnerModel struct {
 
 var vpC20Keys = []string{"a", "$x", "k"}
 
-// formulas: 0: $x   1: a   2: $x = a   3: $x = 1   4: k   5: [$x, a]   6: ($x = 2, $x)
+// formulas: 0: $x   1: a   2: $x = a   3: $x = 1   4: k   5: [$x, a]   6: ($x = 2, $x)   7: -$x   8: $x = true   9: typeof $x   10: $y = $x   11: $y
 func vpC20Formula(i int) Expression {
 	switch i {
 	case 0:
@@ -30,6 +32,16 @@ func vpC20Formula(i int) Expression {
 		return vpId("k")
 	case 5:
 		return &ArrayLiteralExpression{Elements: vpList(vpId("$x"), vpId("a"))}
+	case 7:
+		return &PrefixUnaryExpression{Operator: &TokenNode{Token: SK_Minus}, Operand: vpId("$x")}
+	case 8:
+		return vpBin(SK_Equals, vpId("$x"), vpLit(SK_TrueKeyword, "true"))
+	case 9:
+		return &TypeOfExpression{Expression: vpId("$x")}
+	case 10:
+		return vpBin(SK_Equals, vpId("$y"), vpId("$x"))
+	case 11:
+		return vpId("$y")
 	}
 	return vpBin(SK_Comma, vpBin(SK_Equals, vpId("$x"), vpNumLit(2)), vpId("$x"))
 }
@@ -66,6 +78,30 @@ func (m *vpRunnerModel) eval(i int) interface{} {
 		return m.get("k")
 	case 5:
 		return []interface{}{m.get("$x"), m.get("a")}
+	case 7:
+		if v, ok := m.get("$x").(int); ok {
+			return -v
+		}
+		return vpSkip{} // unary minus on non-numbers: not this property's subject
+	case 8:
+		m.set("$x", true)
+		return true
+	case 9:
+		switch m.get("$x").(type) {
+		case int:
+			return "number"
+		case bool:
+			return "boolean"
+		case string:
+			return "string"
+		}
+		return "object"
+	case 10:
+		v := m.get("$x")
+		m.set("$y", v)
+		return v
+	case 11:
+		return m.get("$y")
 	}
 	m.set("$x", 2)
 	return 2
@@ -85,7 +121,7 @@ func VP_C20_runner() {
 	for step := 0; step < N; step++ {
 		switch vpChoice("op", 5) {
 		case 0: // replace the data map
-			switch vpChoice("map", 3) {
+			switch vpChoice("map", 4) {
 			case 0:
 				r.SetThis(nil)
 				m.this, m.has = nil, false
@@ -96,6 +132,9 @@ func VP_C20_runner() {
 			case 2:
 				r.SetThis(map[string]interface{}{"$x": 7})
 				m.this, m.has = map[string]interface{}{"$x": 7}, true
+			case 3:
+				r.SetThis(map[string]interface{}{"$x": "1", "a": 1})
+				m.this, m.has = map[string]interface{}{"$x": "1", "a": 1}, true
 			}
 		case 1: // set a single entry
 			k := vpC20Keys[vpChoice("key", 2)]
@@ -103,9 +142,12 @@ func VP_C20_runner() {
 			r.SetThisValue(k, v)
 			m.set(k, v)
 		case 2: // evaluate a formula
-			fi := vpChoice("f", 7)
+			fi := vpChoice("f", 12)
 			got, err := r.resolve(ctx, vpC20Formula(fi))
 			want := m.eval(fi)
+			if _, skip := want.(vpSkip); skip {
+				continue
+			}
 			vpAssert("C20/runner/evaluation-no-error", err == nil)
 			if err == nil {
 				vpAssert("C20/runner/evaluation-equals-model", vpSameRef(got, want))
